@@ -370,6 +370,122 @@ def run_shard(mod, tier, seed, shard, nshards, out_path):
 
 
 # --------------------------------------------------------------------------
+# coverage-guided stage (atheris / libFuzzer driving the module's Hypothesis strategy)
+# --------------------------------------------------------------------------
+
+def fuzz_plan(mod, tier):
+    """(number of fuzz shards, libFuzzer runs per shard) - modules opt in with FUZZ = {tier: (shards, runs)}."""
+    return getattr(mod, 'FUZZ', {}).get(tier, (0, 0))
+
+
+def _fix_bytestring_provider():
+    """Hypothesis 6.168: BytestringProvider.draw_integer draws `bits` bits and rejects until min <= value <= max WITHOUT adding min_value,
+    so integers(4, 5) (one bit: 0 or 1) rejects for ever and every input that reaches such a draw (fisher_yates_shuffle in one_of /
+    sampled_from chains does) is an overrun - the C10 strategy accepted 0 of 6000 inputs.  Offset the draw by min_value."""
+    from hypothesis.internal.conjecture.providers import BytestringProvider
+
+    def draw_integer(self, min_value=None, max_value=None, *, weights=None, shrink_towards=0):
+        if min_value is None and max_value is None:
+            min_value, max_value = -(2 ** 127), 2 ** 127 - 1
+        elif min_value is None:
+            min_value = max_value - 2 ** 64
+        elif max_value is None:
+            max_value = min_value + 2 ** 64
+        if min_value == max_value:
+            return min_value
+        span = max_value - min_value
+        bits = span.bit_length()
+        value = self._draw_bits(bits)
+        while value > span:
+            value = self._draw_bits(bits)
+        return min_value + value
+
+    BytestringProvider.draw_integer = draw_integer
+
+
+def run_fuzz_shard(mod, tier, seed, shard, nshards, out_path):
+    """libFuzzer mutates the byte string from which Hypothesis draws the case (`fuzz_one_input`), guided by the branch coverage of
+    the instrumented pyworkers modules (main.py imports the module under `atheris.instrument_imports`).  Same run_case, same judge,
+    same statistics as the generated stage; violations are collected, never raised, so the campaign does not stop at the first one.
+    libFuzzer ends the process without running Python's exit handlers, so the result file is written from inside the callback when
+    the planned number of runs (or the time budget) is reached."""
+    import atheris
+    import hypothesis
+    from hypothesis import given
+    scratch = tempfile.mkdtemp(prefix=f'verif-{mod.ID}-fuzz{shard}-')
+    ctx = Ctx(tier, seed, shard, nshards, scratch)
+    stats = Stats()
+    ctx.stats = stats
+    findings = load_findings(mod.ID)
+    t0 = time.monotonic()
+    budget = getattr(mod, 'TIME_BUDGET', {}).get(tier, 3600)
+    runs = fuzz_plan(mod, tier)[1]
+    if hasattr(mod, 'setup_shard'):
+        mod.setup_shard(ctx)
+    state = {'inputs': 0}
+
+    def finish(status):
+        try:
+            if hasattr(mod, 'teardown_shard'):
+                mod.teardown_shard(ctx)
+        except BaseException:
+            stats.harness_errors.append({'case': None, 'tb': 'teardown: ' + traceback.format_exc()})
+        stats.extra['coverage_guided_inputs'] += state['inputs']
+        d = stats.dump()
+        d['status'] = status
+        d['wall_s'] = time.monotonic() - t0
+        with open(out_path + '.tmp', 'w') as f:
+            json.dump(d, f, default=repr)
+        os.replace(out_path + '.tmp', out_path)
+        shutil.rmtree(scratch, ignore_errors=True)
+        sys.stdout.flush()
+        sys.stderr.flush()
+        os._exit(0)
+
+    @hyp_settings(1)
+    @given(mod.strategy(tier))
+    def body(case):
+        try:
+            out = run_one(mod, case, ctx)
+        except HarnessError:
+            raise
+        except Exception:
+            stats.harness_errors.append({'case': case, 'tb': traceback.format_exc()})
+            return
+        stats.record(mod, findings, case, out)
+        stats.extra['coverage_guided_cases'] += 1
+
+    _fix_bytestring_provider()
+    fuzz_one = body.hypothesis.fuzz_one_input
+
+    def target(data):
+        state['inputs'] += 1
+        try:
+            fuzz_one(data)
+        except BaseException:
+            stats.harness_errors.append({'case': None, 'tb': traceback.format_exc()})
+            finish('error')
+        if state['inputs'] >= runs or time.monotonic() - t0 > budget:
+            finish('ok')
+
+    corpus = os.path.join(scratch, 'corpus')
+    os.makedirs(corpus)
+    lseed = shard_seed(seed, mod.ID + '/fuzz', shard) or 1
+    # starting corpus: byte strings long enough for Hypothesis to draw a whole case from (an empty corpus only produces inputs the
+    # strategy runs out of before the code under test is reached, so libFuzzer sees no coverage to climb); a function of the seed
+    import random
+    rnd = random.Random(lseed)
+    for k in range(48):
+        with open(os.path.join(corpus, f'seed{k:02d}'), 'wb') as f:
+            f.write(rnd.randbytes(rnd.choice([256, 1024, 4096, 12000])))
+    argv = [sys.argv[0], f'-seed={lseed}', f'-runs={runs + 1000}', '-max_len=16384', '-len_control=0', '-print_final_stats=0',
+            '-verbosity=1', '-rss_limit_mb=4096', corpus]
+    atheris.Setup(argv, target, enable_python_coverage=True)
+    atheris.Fuzz()
+    finish('ok')      # not reached in practice
+
+
+# --------------------------------------------------------------------------
 # shrinking
 # --------------------------------------------------------------------------
 
@@ -471,6 +587,28 @@ def run_parent(mod, tier, seed, nshards_override=None):
                              stdin=subprocess.DEVNULL, stdout=logf, stderr=subprocess.STDOUT,
                              env=child_env(extra_env), start_new_session=True, cwd=VERIF)
         procs.append((p, outp, logp, tag, logf))
+    # coverage-guided shards (modules that opt in with FUZZ; skipped, and said so in the evidence, when atheris cannot be imported)
+    nfuzz, fuzz_runs = fuzz_plan(mod, tier)
+    fuzz_note = None
+    fuzz_logs = []
+    if nfuzz:
+        probe = subprocess.run([PY, '-c', 'import sys; sys.path.append(sys.argv[1]); import atheris', os.path.join(VERIF, '.deps')],
+                               capture_output=True, text=True)
+        if probe.returncode != 0:
+            fuzz_note = 'skipped: atheris not importable (' + probe.stderr.strip().splitlines()[-1][:200] + ')'
+            nfuzz = 0
+    for j in range(nfuzz):
+        i = nshards + j
+        outp = os.path.join(tmp, f'shard{i}.json')
+        logp = os.path.join(tmp, f'shard{i}.log')
+        tag = uuid.uuid4().hex
+        logf = open(logp, 'wb')
+        p = subprocess.Popen([PY, os.path.join(HARNESS, 'main.py'), mod.ID, '--tier', tier, '--seed', str(seed),
+                              '--shard', f'{j}/{nfuzz}', '--out', outp, '--fuzz'],
+                             stdin=subprocess.DEVNULL, stdout=logf, stderr=subprocess.STDOUT,
+                             env=child_env({'VERIF_TAG': tag}), start_new_session=True, cwd=VERIF)
+        procs.append((p, outp, logp, tag, logf))
+        fuzz_logs.append(logp)
     hard = getattr(mod, 'TIME_BUDGET', {}).get(tier, 3600) * 1.5 + 120
     deadline = time.monotonic() + hard
     merged = None
@@ -596,6 +734,20 @@ def run_parent(mod, tier, seed, nshards_override=None):
     }
     for k, v in extra.items():
         coverage[k] = v
+    if fuzz_plan(mod, tier)[0]:
+        import re
+        covs = []
+        for lp in fuzz_logs:
+            try:
+                with open(lp, 'rb') as f:
+                    m = re.findall(rb'cov: (\d+) ft: (\d+) corp: (\d+)', f.read())
+                if m:
+                    covs.append({'cov': int(m[-1][0]), 'ft': int(m[-1][1]), 'corpus': int(m[-1][2])})
+            except OSError:
+                pass
+        coverage['coverage_guided_stage'] = fuzz_note or {
+            'engine': 'atheris/libFuzzer over Hypothesis fuzz_one_input, pyworkers instrumented', 'shards': nfuzz,
+            'planned_runs_per_shard': fuzz_runs, 'libfuzzer_last_status': covs}
     if hasattr(mod, 'coverage_extra'):
         coverage.update(mod.coverage_extra(tier, coverage))
     evidence = {
